@@ -162,9 +162,52 @@ package mhprimary
 
 //@ footprint MHGC = heap("multihash.primaryGC.reclaimed"), heap("multihash.MultihashPrimary.rec"), heap("multihash.MultihashPrimary.nextPool"), heap("multihash.MultihashPrimary.outstandingWork"), heap("multihash.blockRecord"), heap("types.Block->int"), heap("freelist.FreeList"), heap("E:uint8"), heap("E:~/store/types.Block"), heap("G:"), heap("os.File")
 
-//@ func (gc *primaryGC) reapRecords(fileNum uint32, lowUsePercent int64) (dead bool, err error)
-//@   trusted T5 contract pending: merges/truncates free records of one non-current primary file and relocates the last records of a low-use file (see DESIGN.md 10)
-//@   modifies fp(MHGC)
+//@ func (cp *MultihashPrimary) IndexKey(key []byte) (ikey []byte, err error)
+//@   trusted go-multihash Decode (dependency): the digest is a sub-slice of the key
+//@   pure
+//@   ensures err == nil ==> ikey != nil && baseof(ikey) == baseof(key)
+
+// The index update callback handed to the collector (Store.updateIndex -> Index.Update).
+//@ func UpdateIndexFunc(key []byte, blk types.Block) (err error)
+//@   trusted function value supplied by package store: updates the index entry of key; touches only index state
+//@   modifies heap("/store/index.")
+
+// reapRecords (C04, C07, C11, C13): the scan follows the record chain of one primary file.
+// gB (ghost) is the set of record boundaries found so far and gS the payload size found at each;
+// size prefixes are only rewritten at a known boundary with a size that ends the merged free
+// span exactly at the end of the record under the cursor; the file is only truncated at the
+// start of a free span that reaches the end of the scanned file. Relocation: each record is
+// read into a buffer that no pooled record refers to (the pool keeps the slices it is given),
+// and the freelist receives exactly the old location with the size found by the scan.
+//@ func (gc *primaryGC) reapRecords(fileNum uint32, lowUsePercent int64) (dead bool, err error)  property C04 C07 C11 C13
+//@   requires gc.primary != nil && gc.freeList != nil && inv(gc.primary)
+//@   modifies fp(MHGC), heap("/store/index.")
+//@   ghost var gB (Array Int Bool) = nopos()[0 := true]
+//@   ghost var gS (Array Int Int) = nosize()
+//@   ghost var gpos int = 0
+//@   ghost var gsz int = 0
+//@   ghost var gtrunc int = 0 - 1
+//@   ghost at loop 0 head: gpos = pos
+//@   ghost at after call (encoding/binary.littleEndian).Uint32#0: gsz = $r0 % 2147483648
+//@   ghost at loop 0 latch: gB = gB[pos := true]
+//@   ghost at loop 0 latch: gS = gS[gpos := gsz]
+//@   ghost at after call (*os.File).Truncate#0: gtrunc = ite($r0 == nil, $a1, gtrunc)
+// input invariant: a primary record is smaller than 2^30 bytes (the code's own assumption)
+//@   assume at after call (encoding/binary.littleEndian).Uint32#0: @format-primary-record-size $r0 % 2147483648 < 1073741824
+//@   assert at loop 0 latch: @cursor-follows-format pos == gpos + 4 + gsz
+//@   assert at before call (*os.File).ReadAt#0: @read-at-boundary $a2 == pos && gB[pos] && len($a1) == 4
+//@   assert at before call (*os.File).WriteAt#0: @merge-keeps-chain gB[$a2] && $a2 + 4 + freeAtSize == gpos + 4 + gsz && len($a1) == 4 && le32(bytes($a1), 0) == freeAtSize + 2147483648 && freeAtSize < 2147483648
+//@   assert at before call (*os.File).Truncate#0: @truncate-free-tail gB[$a1] && $a1 > busyAt && $a1 + 4 + freeAtSize == pos
+//@   assert at before call (*os.File).ReadAt#1: @relocate-at-boundary $a2 == busyAt && gB[busyAt] && len($a1) == 4
+//@   assert at before call (*os.File).ReadAt#2: @buffer-not-pooled forall i int :: 0 <= i && i < len(gc.primary.nextPool.blocks) ==> baseof(gc.primary.nextPool.blocks[i].key) != baseof($a1) && baseof(gc.primary.nextPool.blocks[i].value) != baseof($a1)
+//@   assert at before call freelist.FreeList.Put#1: @C13-old-location-freed $a1.Offset == ppos(fileNum, gc.primary.maxFileSize, busyAt) && $a1.Size == gS[busyAt] && gB[busyAt]
+//@   internal ensures @dead-means-empty dead ==> err == nil && (gtrunc == 0 || event("call:(*os.File).ReadAt") == 0)
+//@   loop 0 invariant @cursor pos >= 0 && pos <= file.$size + 2147483648 && file.$size < (1 << 62) && gB[pos] && file != nil && len(sizeBuf) == 4 && fresh(sizeBuf) && fresh(file)
+//@   loop 0 invariant @spans 0 - 1 <= busyAt && busyAt < pos && 0 - 1 <= prevBusyAt && prevBusyAt <= busyAt && 0 - 1 <= freeAt && freeAt < pos && freeAtSize < 2147483648 && (pos == 0 ==> freeAt == 0 - 1 && busyAt == 0 - 1)
+//@   loop 0 invariant @free-span freeAt > busyAt ==> gB[freeAt] && freeAt + 4 + freeAtSize == pos
+//@   loop 0 invariant @busy-records (busyAt >= 0 ==> gB[busyAt] && busySize == gS[busyAt]) && (prevBusyAt >= 0 ==> gB[prevBusyAt] && prevBusySize == gS[prevBusyAt])
+//@   loop 1 invariant @busy-records 0 - 1 <= busyAt && (busyAt >= 0 ==> gB[busyAt] && busySize == gS[busyAt]) && 0 - 1 <= prevBusyAt && (prevBusyAt >= 0 ==> gB[prevBusyAt] && prevBusySize == gS[prevBusyAt])
+//@   loop 1 invariant @handles file != nil && fresh(file) && len(sizeBuf) == 4 && fresh(sizeBuf) && gc.primary == old(gc.primary) && gc.freeList == old(gc.freeList) && inv(gc.primary)
 
 //@ func processFreeList(ctx context.Context, freeList *freelist.FreeList, basePath string, maxFileSize uint32) (affected map[uint32]struct{}, err error)
 //@   trusted T5 contract pending: marks the records named by the rotated freelist file as deleted (see DESIGN.md 10)
